@@ -50,6 +50,27 @@ def _bucket_execs(rng, tier):
         for pol in POLICIES:
             for m in sorted(maxes):
                 ex.append(_x(what="bucket", policy=pol, list=lst, max=m))
+    ex.append(_x(what="bucket", policy="log2big", list="node", max=0))     # 2^k - 1, 2^k, 2^k + 1 for k = 3..62
+    return ex
+
+
+def _bucket_live_execs(rng, tier):
+    """the bucket arithmetic at work: real collections asked for every size around the bucket boundaries up to and
+    including max_node_size(), through the throwing and - once a node of that bucket is free again - the composable
+    interface (driver seq, contract SeqTrace: the node holds the size, a free node is handed out)"""
+    ex = []
+    for bd in ("log2", "identity"):
+        for ptype in ("node", "array", "small"):
+            for maxns in ((64, 100, 128) if bd == "log2" else (12, 16, 32)):
+                if ptype == "small" and bd == "identity" and maxns > 16:
+                    continue
+                sizes = sorted({s for k in range(0, 8) for s in (2 ** k - 1, 2 ** k, 2 ** k + 1) if 1 <= s <= maxns} | {maxns - 1, maxns})
+                cmds = []
+                for sz in sizes:
+                    cmds += ["an %d 1" % sz, "an %d 1" % sz, "d 0", "tn %d 1" % sz, "d 0", "d 0"]
+                cmds += ["nofail", "sweep"]
+                ex.append(({"fam": "coll", "type": ptype, "bd": bd, "src": "grow", "ns": maxns, "bs": 8192 if bd == "identity" else 4096,
+                            "place": rng.choice(["lo", "hi"]), "member": rng.choice([0, 1])}, cmds))
     return ex
 
 
@@ -57,6 +78,8 @@ def _c19_jobs(tier, seed):
     rng = random.Random(seed * 1000003 + 19)
     cfgs = ["base"] if tier == "quick" else ["base", "dbg"]
     J = []
+    for cfg in ("rel", "base", "dbg"):
+        J.append(Job(cfg, "seq", "SeqTrace", _bucket_live_execs(random.Random(rng.random()), tier), "buckets-live"))
     for cfg in cfgs:
         J.append(Job(cfg, TABLES[0], TABLES[1], _pure_execs(random.Random(rng.random()), tier), "pure"))
         J.append(Job(cfg, TABLES[0], TABLES[1], _bucket_execs(random.Random(rng.random()), tier), "buckets"))
